@@ -12,7 +12,12 @@
          ac <t> <col>:<type>[=default]    ALTER TABLE t ADD COLUMN
          dc <t> <col>            ALTER TABLE t DROP COLUMN
          sn <t> <col> | dn <t> <col>      ALTER COLUMN SET / DROP NOT NULL
-         dt <t>                  DROP TABLE
+         dt <t> | dtc <t>        DROP TABLE | DROP TABLE … CASCADE (the same to the model: a table's indexes are part of it)
+         cin <name> <t> a+b      CREATE UNIQUE INDEX <name> ON t (a, b) (the model does not know index names: the generator
+                                 uses a name for one live index at a time)
+         vacuum                  VACUUM (no logical effect; generated only while no session is open)
+         audit                   only as the last op: the final observation ends with `ix=<n>`, the number of live index
+                                 relations = the number of keys of the live tables
          sel / ins / upd / del   as engine `hist`
   Output: one token per op (`ddl` for a successful DDL statement, otherwise as `hist`), then ` | ` and, for every
           table name mentioned in the case (order of first mention), `<name>=[rows]` or `<name>=notfound`.
@@ -79,11 +84,18 @@ def parseDStmt : List String → Option DStmt
   | ["sn", t, c] => if ident t && ident c then some (.setNotNull t c) else none
   | ["dn", t, c] => if ident t && ident c then some (.dropNotNull t c) else none
   | ["dt", t] => if ident t then some (.dropTable t) else none
+  | ["dtc", t] => if ident t then some (.dropTable t) else none
+  | ["cin", n, t, g] =>
+    if !ident t || !ident n then none
+    else match parseGroup g with
+      | some (false, names) => some (.addKey t false names)
+      | _ => none
   | ws => (parseStmt ws).map DStmt.dml
 
 def parseDOp (ws : List String) : Option DOp :=
   match ws with
   | ["reopen"] => some (.reopen [])
+  | ["vacuum"] => some .tick
   | "db" :: rest => (parseDStmt rest).map DOp.auto
   | [s, "begin"] => if sessName s then some (.begin s) else none
   | [s, "commit"] => if sessName s then some (.commit s) else none
@@ -92,13 +104,49 @@ def parseDOp (ws : List String) : Option DOp :=
   | s :: rest => if sessName s then (parseDStmt rest).map (DOp.exec s) else none
   | [] => none
 
-def parseCase (line : String) : Option (List DOp) :=
+/-- Well-formedness of index names (the model does not know them; the code refuses a CREATE UNIQUE INDEX whose name is
+    taken): a name — explicit (`cin`) or implicit (`ci`: ix<table><cols>) — is used again only after the table it was
+    created on has been dropped by an autocommit DROP TABLE or by a session that then commits.  Purely textual, the same
+    rule as `index_names_well_formed` in harness/src/engines/ddl.rs.  `live` = (index name, table), `pending` = (session,
+    table it dropped). -/
+def indexNamesOk : List (List String) → List (String × String) → List (String × String) → Bool
+  | [], _, _ => true
+  | ws :: rest, live, pending =>
+    let create (n t : String) : Bool :=
+      if live.any (fun e => e.1 == n) then false else indexNamesOk rest (live ++ [(n, t)]) pending
+    match ws with
+    | [s, "begin"] => indexNamesOk rest live (pending.filter (fun e => e.1 != s))
+    | [s, "rollback"] => indexNamesOk rest live (pending.filter (fun e => e.1 != s))
+    | [s, "drop"] => indexNamesOk rest live (pending.filter (fun e => e.1 != s))
+    | [s, "commit"] =>
+      let dropped := (pending.filter (fun e => e.1 == s)).map (·.2)
+      indexNamesOk rest (live.filter (fun e => !dropped.contains e.2)) (pending.filter (fun e => e.1 != s))
+    | ["reopen"] => indexNamesOk rest live []
+    | [_, "ci", t, g] => create ("ix" ++ t ++ String.join (g.splitOn "+")) t
+    | [_, "cin", n, t, _] => create n t
+    | ["db", "dt", t] => indexNamesOk rest (live.filter (fun e => e.2 != t)) pending
+    | ["db", "dtc", t] => indexNamesOk rest (live.filter (fun e => e.2 != t)) pending
+    | [s, "dt", t] => indexNamesOk rest live (pending ++ [(s, t)])
+    | [s, "dtc", t] => indexNamesOk rest live (pending ++ [(s, t)])
+    | _ => indexNamesOk rest live pending
+
+/-- the ops, and whether the case ends with `audit` -/
+def parseCase (line : String) : Option (List DOp × Bool) :=
   let line := line.trimAscii.toString
   if !line.startsWith "ddl |" then none
   else
     let body := (line.drop 5).toString.trimAscii.toString
-    if body.isEmpty then some []
-    else allSome ((body.splitOn " ; ").map (fun o => parseDOp (words o)))
+    if body.isEmpty then some ([], false)
+    else
+      let parts := body.splitOn " ; "
+      let audit := parts.getLast? == some "audit"
+      let parts := if audit then parts.dropLast else parts
+      if !indexNamesOk (parts.map words) [] [] then none
+      else (allSome (parts.map (fun o => parseDOp (words o)))).map (fun ops => (ops, audit))
+
+/-- number of keys (= index relations) of the tables a transaction beginning now resolves -/
+def keyCount (h : Heap) (v : View) : Nat :=
+  ((catOf h v).drop 1).foldl (fun n ts => n + ts.keySets.length) 0
 
 def stmtTable : DStmt → String
   | .dml st => Stmt.table st
@@ -144,7 +192,7 @@ def render (sort : Bool) (ops : List DOp) (tabs : List String) (outs : List Out)
 def runLine (flags : List String) (line : String) : String :=
   match parseCase line with
   | none => "bad-op"
-  | some ops =>
+  | some (ops, audit) =>
     let tabs := tablesOf ops []
     -- `reopen` drops every session the case ever names
     let sess := ops.foldl (fun acc op => match op with
@@ -155,9 +203,15 @@ def runLine (flags : List String) (line : String) : String :=
       | o => o)
     let all := [DOp.tick] ++ ops ++ tabs.map (fun t => DOp.auto (.dml (.sel t none)))
     let sort := !flags.contains "nosort"
-    if flags.contains "abs" then render sort ops tabs (Spec.run all).2
+    if flags.contains "abs" then
+      let r := Spec.run all
+      render sort ops tabs r.2 ++ (if audit then s!" ix={keyCount r.1.heap r.1.db.committed}" else "")
     else
-      let go (fl : List String) : String := render sort ops tabs (run (parseDefects fl) all).2
+      let go (fl : List String) : String :=
+        let D := parseDefects fl
+        let r := run D all
+        render sort ops tabs r.2 ++
+          (if audit then s!" ix={keyCount r.1.heap (view D (r.1.db.freshSnap D) r.1.db.rows)}" else "")
       let out := go flags
       let fired := (flags.filter defectNames.contains).filter (fun f => go (flags.filter (· != f)) != out)
       if fired.isEmpty then out else out ++ " ## fired=" ++ joinWith "," fired
